@@ -847,3 +847,63 @@ def selfcheck():
     except ReplayDivergence:
         pass
     return out
+
+
+# ============================================================================ line-level interleaving of pure-Python callables
+class ModuleState:
+    """Snapshot / restore of a module's global bindings (containers and arrays are copied), so that every explored
+    execution starts from the state the module had right after import (lazily built caches included)."""
+
+    def __init__(self, mod):
+        import copy
+        self.mod = mod
+        self.saved = {}
+        for k, v in mod.__dict__.items():
+            if isinstance(v, (dict, list, set, np.ndarray)) and not k.startswith('__'):
+                self.saved[k] = ('copy', copy.copy(v))
+            else:
+                self.saved[k] = ('ref', v)
+
+    def restore(self):
+        import copy
+        d = self.mod.__dict__
+        for k in [k for k in d if k not in self.saved]:
+            del d[k]
+        for k, (how, v) in self.saved.items():
+            d[k] = copy.copy(v) if how == 'copy' else v
+
+
+def explore_lines(calls, file_filter, bound, modules=(), max_exec=None):
+    """Run the zero-argument callables `calls` as concurrent threads, with a scheduling point before every source line
+    executed in files accepted by `file_filter`; enumerate all schedules with <= bound preemptions (CHESS).
+    Yields (choices, preemptions, results list)."""
+    states = [ModuleState(m) for m in modules]
+
+    def run_one(prefix):
+        for st in states:
+            st.restore()
+        sch = Scheduler(prefix)
+        rt = Runtime(mode='sched', scheduler=sch)
+        results = [None] * len(calls)
+
+        def body(i):
+            def local(frame, event, arg):
+                if event == 'line':
+                    sch.point(i, (frame.f_code.co_name, frame.f_lineno))
+                return local
+
+            def tracer(frame, event, arg):
+                if event == 'call' and file_filter(frame.f_code.co_filename):
+                    return local
+                return None
+            sys.settrace(tracer)
+            try:
+                results[i] = calls[i]()
+            finally:
+                sys.settrace(None)
+        rt.regions.append(Region(0, len(calls), 'lines'))
+        sch.run_region(rt, len(calls), body)
+        return sch, results
+    yield from explore(run_one, bound, max_exec=max_exec)
+    for st in states:
+        st.restore()
